@@ -38,6 +38,11 @@ vars == <<cfg, mode, pc, ops, fired, why>>
 NoDevs == {}
 FamsAll == {"rms", "skipln", "gelu", "softmax", "groupnorm", "rotary", "sdpa", "mha", "gqa"}
 ModesAll == {"chain", "ort"}
+ModesChain == {"chain"}
+FamsGelu == {"gelu"}
+FamsMha == {"mha"}
+FamsGqa == {"gqa"}
+FamsNorm == {"rms", "skipln"}
 
 AllDevs == {"bias_gelu_bias_not_last_dim", "group_norm_gamma_not_per_channel",
             "cos_sin_cache_1d_position_ids_batch", "attn_bias_key_axis_broadcast",
